@@ -359,5 +359,52 @@ def same_isfast(chk, program):
         # the payload handed on is the encoder function's result in both arms
         pay = fast_call[0][2][2][-1]
         okk = okk and single[0][2][1] == (pay,)
-    chk.check(okk, 'FP-TYPE', '_encode::branch', file=ENC, line=enc.lineno, func='_encode',
-              expected='fast PGN -> _encode_fast_message(payload); otherwise [payload]', found=[sym.show(e[2])[:80] for e in rets])
+    sem = _encode_branch_semantic(program, enc)
+    if sem is not None:
+        # decided on the interpreted _encode, the oracle answered both ways: whatever the spelling of the branch
+        chk.check(not sem, 'FP-TYPE', '_encode::branch', file=ENC, line=enc.lineno, func='_encode',
+                  expected='fast PGN -> the result of _encode_fast_message(.., payload); otherwise [payload]', found='ok (interpreted, oracle answered both ways)' if not sem else sem)
+        return
+    if okk:
+        chk.check(True, 'FP-TYPE', '_encode::branch', file=ENC, line=enc.lineno, func='_encode', expected='fast PGN -> _encode_fast_message(payload); otherwise [payload]', found='ok (structural)')
+    else:
+        chk.unknown('FP-TYPE', '_encode::branch', f"_encode is neither interpretable nor of the recognised shape: {[sym.show(e[2])[:80] for e in rets]}", ENC, enc.lineno)
+
+def _encode_branch_semantic(program, enc):
+    """NMEA2000Encoder._encode interpreted with NMEA2000Decoder._isFastPGN answered True and False: -> list of mismatches ([] = as the property wants),
+    None when not interpretable"""
+    from ..wire import is_logger
+    bad = []
+    try:
+        for fast, plen in ((True, 20), (True, 4), (True, 6), (True, 7), (False, 8), (False, 3)):
+            payload = A.ABytes([A.sym_byte('payload', i) for i in range(plen)])
+            marker = A.AList([A.ABytes([('c', 1)])])
+            calls = []
+            def hook(it, call, env, fast=fast, payload=payload, marker=marker, calls=calls):
+                nm = ast.unparse(call.func)
+                if nm.endswith('_isFastPGN'):
+                    return fast
+                if nm.endswith('._call_encode_function'):
+                    return payload
+                if nm.endswith('._encode_fast_message'):
+                    calls.append([it.expr(a, env) for a in call.args])
+                    return marker
+                return NotImplemented
+            cls = program.cls('encoder', 'NMEA2000Encoder')
+            methods = {n.name: n for n in cls.body if isinstance(n, (ast.FunctionDef, ast.AsyncFunctionDef))}
+            msg = A.AObj(PGN=A.AInt(130306), source=A.AInt(0x21), destination=A.AInt(0x42), priority=A.AInt(5), id=A.AStr([('lit', 'windData')]), fields=A.AList([]))
+            it = A.Interp(hook=hook, skip=is_logger, methods=methods, module=A.ModuleEnv(program.mod('encoder').tree))
+            r = it.call_function(enc, [W_.fresh_encoder(program, 3), msg])
+            if fast:
+                if len(calls) != 1 or not calls[0] or calls[0][-1] is not payload:
+                    bad.append(f"fast PGN, payload of {plen} bytes: _encode_fast_message called {len(calls)} times" + ('' if len(calls) != 1 else ' with something else than the encoded payload'))
+                elif r is not marker:
+                    bad.append('fast PGN: what _encode returns is not what _encode_fast_message returned')
+            else:
+                if calls:
+                    bad.append('single-frame PGN: _encode_fast_message is called')
+                elif not (isinstance(r, (A.AList, list, tuple)) and len(r.items if isinstance(r, A.AList) else r) == 1 and (r.items if isinstance(r, A.AList) else r)[0] is payload):
+                    bad.append(f"single-frame PGN: _encode returns {r!r}"[:120] + ' instead of [payload]')
+    except (A.Unknown, A.RaiseSignal, A.PyError, KeyError, AttributeError, TypeError, RecursionError):
+        return None
+    return bad
